@@ -281,6 +281,25 @@ v("C18", "channels-never-collapsed", LD, "        if (src, dest) in args.srcdest
 v("C18", "twin-below-by-sep", LD, '    return path.startswith(os.path.join(top, ""))', "    return path.startswith(top + os.sep)", expect="silent")
 v("C01", "complex-cast-type-native", RF, "                    ).newbyteorder(self.realdtype.byteorder)\n", "                    )\n", rules=["C01.R7"])
 v("C01", "twin-complex-cast-type-via-byteorder-attr", RF, "                    ).newbyteorder(self.realdtype.byteorder)\n", "                    ).newbyteorder(self.structdtype[\"r\"].byteorder)\n", expect="analysis-error")
+# ---- rules added after the defect hunt (DESIGN 9.7): each fix reverted must fire its rule ------------------------
+v(["C15", "C16"], "name-spans-directories", LD, 'RE_FILENAME = r"(?P<name>(?!tmp\\.)[^" + re.escape(os.sep) + r"]+?)"', 'RE_FILENAME = r"(?P<name>(?!tmp\\.).+?)"', rules=["C15.R3"])
+v("C15", "window-once-per-event", WD, "                if m and (not match_time or self._in_time_window(m)):\n                    matched = True",
+  "                if m:\n                    matched = True", rules=["C15.R6"])
+v("C17", "already-mirrored-by-stat", MR, "            if not os.path.exists(dest_path) or not filecmp.cmp(\n                src_path, dest_path, shallow=False\n            ):",
+  "            if not os.path.exists(dest_path) or not filecmp.cmp(src_path, dest_path):", rules=["C17.R5"])
+v("C17", "leftover-staging-file-kept", MR, "                                os.remove(dst)\n                                os.link(src, dst)\n", "                                pass\n", rules=["C17.R5"])
+v("C17", "moved-files-ignored", MR, "    def on_moved(self, event):", "    def _unused_on_moved(self, event):", rules=["C17.R2"])
+v("C17", "moved-deletes-in-dest", MR, "        self.mirror_to_dest(event.dest_path)\n", "        self.mirror_to_dest(event.dest_path)\n        os.remove(self._get_dest_path(event.src_path))\n", rules=["C17.R2"])
+v("C12", "string-list-ascii", DM, "                    val = str_val\n", "                    val = val.astype(np.str_)\n", rules=["C12.R5"])
+v(["C12", "C20"], "keys-as-int64", DM, "                idxs = sorted(int(key) for key in f.keys())", "                idxs = sorted(np.fromiter(list(f.keys()), np.int64))", rules=["C12.R3"])
+v("C12", "twin-keys-via-map", DM, "                idxs = sorted(int(key) for key in f.keys())", "                idxs = sorted(map(int, f.keys()))", expect="silent")
+v("C11", "open-file-by-name-only", LIB, "	if (hdf5_data_object->hdf5_file == 0 || hdf5_data_object->sub_directory == NULL", "	if (hdf5_data_object->sub_directory == NULL", rules=["C11.R7"])
+v("C06", "session-second-by-float", LIB, "	hdf5_data_object->init_utc_timestamp = 0;\n", "	hdf5_data_object->init_utc_timestamp = (uint64_t)(global_start_sample/hdf5_data_object->sample_rate);\n", rules=["C06.R8"])
+v("C06", "regenerate-one-subdir", RF, "    for this_subdir in subdirs[mid:] + subdirs[:mid]:\n        rf_files = glob.glob(os.path.join(this_subdir, rf_file_glob))\n        if len(rf_files) > 0:\n            break\n    else:\n",
+  "    this_subdir = subdirs[mid]\n    rf_files = glob.glob(os.path.join(this_subdir, rf_file_glob))\n    if len(rf_files) == 0:\n", rules=["C06.R4"])
+v("C16", "growth-without-expiry", RB, "                # a file that grew can push the total size over the limit\n                self._expire(rec.group)\n", "", rules=["C16.R5"])
+v("C10", "index-write-failure-not-sticky", LIB, "			/* the data is in the file but not described by its index: the file must not be published */\n			hdf5_data_object->has_failure = 1;\n", "", rules=["C10.R2"])
+v("C20", "reader-cache-by-channel", RF, "        reader_key = (channel_name, top_level_dir)", "        reader_key = channel_name", rules=["C20.R7"])
 v("C19", "gap-from-requested-index", RF, "        gap_size = (next_avail_sample - self._next_avail_sample) - nwritten", "        gap_size = next_sample - self._next_avail_sample", rules=["C19.R2"])
 v("C19", "gap-without-nwritten", RF, "        gap_size = (next_avail_sample - self._next_avail_sample) - nwritten", "        gap_size = next_avail_sample - self._next_avail_sample", rules=["C19.R2"])
 v("C19", "returns-prestate", RF, "        self._total_gap_samples += gap_size\n        self._next_avail_sample = next_avail_sample\n\n        return next_avail_sample\n",
